@@ -85,6 +85,24 @@ META = {
         "Verdict is behavioural (snapshots), so sharing of read-only cached arrays is allowed; texture image buffers compared by content only.",
         "DESIGN.md section 4 C17",
     ),
+    "C18": (
+        "exhaustive enumeration of all face re-winding subsets of small solids and of single/adjacent-pair holes + hypothesis for larger meshes, subdivision parameters; independent array-level oracle (edge incidence, per-body signed volume, barycentric containment, reference Loop step)",
+        "Generated search: all 2^F flip subsets of tetrahedron, octahedron, box and a two-body mesh x the three fix_normals modes (the box x explicit multibody modes strided in the quick tier), structured and random subsets on larger 1-3 body / genus 0-1 meshes through fix_normals, repair.fix_normals and process(validate=True); every single-face and adjacent-pair hole on 12 templates plus generated multi-hole cases through fill_holes; subdivide (all / subsets / repeated), subdivide_to_size (edge bound, containment in the source face, ValueError contract) and subdivide_loop (1-3 iterations, closed / boundary / chord / non-manifold boundary) against an oracle computed on the raw arrays. Enumerated families complete; otherwise exploration.",
+        "quad holes with three collinear corners and meshes with fewer than 3 faces left are skipped (documented early exits of fill_holes).",
+        "DESIGN.md section 4 C18",
+    ),
+    "C19": (
+        "exhaustive enumeration of 24 Euler conventions x special-angle grid^3 and quaternion / slerp / TRS / alignment grids + hypothesis; oracles from definitions (elementary rotation products, Rodrigues, Hamilton product, homogeneous multiply)",
+        "Generated search: every Euler axis convention x 17 special angles cubed (31 cubed in thorough) for euler_matrix / euler_from_matrix / quaternion_from_euler / euler_from_quaternion against explicit products of elementary rotations (round trips compared as matrices), rotation_matrix / rotation_from_matrix, all quaternion functions on grids that drive each largest-diagonal branch and both signs, slerp, compose/decompose of TRS(+shear) incl. gimbal and near-gimbal, transform_points 2D/3D either side of the identity shortcut, transform_around, planar matrices, scale_and_translate, is_rigid / fix_rigid, align_vectors and plane_transform; every produced rotation orthonormal with det +1. Enumerated grids complete; otherwise exploration.",
+        "tolerances 1e-14..1e-12 by chain length with a capped allowance near singular branches; planar_matrix sense as used by oriented_bounds_2D.",
+        "DESIGN.md section 4 C19",
+    ),
+    "C20": (
+        "systematic fault injection over valid seed files (every truncation / strided byte, word, integer-field, chunk faults) + hypothesis byte strings, each input loaded in an isolated worker under address-space and CPU limits; outcome oracle (ordinary exception or result, CPU, peak memory, descriptor table)",
+        "Fault enumeration: seeds from the tree's own exporters (stl, stl_ascii, ply, off, obj, glb, gltf, 3mf, dae, xyz, binvox, dxf, svg, zip) and small bundled models (3dxml, xaml, ...) x truncation offsets, single-byte faults, aligned 32-bit words set to 0xFFFFFFFF/0x7FFFFFFF/0x80000000/0, ascii integers replaced by huge / negative values, chunk delete / duplicate / swap / 2000-fold repetition, splices, plus generated byte strings, through load / load_mesh / load_scene / load_path by stream and by file path in a separate process with RLIMIT_AS and a CPU timer. Outcome must be a result or an ordinary Exception within 5 s + 2 ms/byte CPU (slow cases re-run alone twice, doubled budget, before counting), peak memory growth <= 64 MiB + 2000 x input length, and no descriptor left open. The strided grid is complete for the quick tier's stride; all offsets for files <= 4 kB in the thorough tier.",
+        "termination decided up to the CPU budget; third-party parser families (meshio, cascadio, openctm) not fuzzed; no coverage-guided fuzzing (atheris not importable in /venv; numpy / lxml parsers give no coverage signal).",
+        "DESIGN.md section 4 C20",
+    ),
 }
 
 def main():
